@@ -4,7 +4,7 @@ from __future__ import annotations
 import ast
 import copy
 
-from ..astutil import attr_chain, call_method, short, src, enum_member, ancestors
+from ..astutil import clone, attr_chain, call_method, short, src, enum_member, ancestors
 from ..linear import Normaliser, Sym
 from ..model import walk_local, AnalysisError
 from ..report import Ctx
@@ -299,7 +299,7 @@ def signature_rewrite(ctx: Ctx, fi, fields: dict | None = None) -> None:
                 # any(A for ...)  is  not all(not A for ...)
                 from ..model import _Canon
                 ge0 = leaves[0][0].args[0]
-                flipped = ast.GeneratorExp(elt=_Canon().visit_UnaryOp(ast.UnaryOp(op=ast.Not(), operand=copy.deepcopy(ge0.elt))), generators=ge0.generators)
+                flipped = ast.GeneratorExp(elt=_Canon().visit_UnaryOp(ast.UnaryOp(op=ast.Not(), operand=clone(ge0.elt))), generators=ge0.generators)
                 call = ast.copy_location(ast.Call(func=ast.Name(id="all", ctx=ast.Load()), args=[ast.copy_location(flipped, ge0)], keywords=[]), leaves[0][0])
                 alls = [(call, not leaves[0][1])]
             ok_ = len(alls) == 1 and len(leaves) == 1 and alls[0][1] is True and alls[0][0].args and isinstance(alls[0][0].args[0], ast.GeneratorExp)
